@@ -278,6 +278,41 @@ Definition fork_sigmask (m : sigmask) (fork_fail : bool) : option sigmask * sigm
                                               before the test of *pid == -1 *)
 
 (* ------------------------------------------------------------------ *)
+(* credentials: UV_PROCESS_SETGID / UV_PROCESS_SETUID (process.c:404-419)  *)
+(* ------------------------------------------------------------------ *)
+(* real, effective, saved id *)
+Record creds := mkC { c_r : nat; c_e : nat; c_s : nat }.
+
+(* setuid(2)/setgid(2) on Linux (trusted base): a privileged caller (effective
+   uid 0, i.e. CAP_SETUID/CAP_SETGID) gets all three ids set; an unprivileged
+   one may only make its real or saved id effective; otherwise EPERM (None) *)
+Definition setid (c : creds) (privileged : bool) (id : nat) : option creds :=
+  if privileged then Some (mkC id id id)
+  else if (id =? c_r c)%nat || (id =? c_s c)%nat then Some (mkC (c_r c) id (c_s c))
+  else None.
+
+(* the child after the shuffle: setgid first (still with the old uid), then
+   setuid; each only when its flag is set, never skipped because an id "is
+   already" the requested one.  None = EPERM (uv__write_errno). *)
+Definition child_creds (uc gc : creds) (set_gid set_uid : option nat) : option (creds * creds) :=
+  match (match set_gid with
+         | Some g => setid gc (c_e uc =? 0)%nat g
+         | None => Some gc
+         end) with
+  | None => None
+  | Some gc1 =>
+      match (match set_uid with
+             | Some u => setid uc (c_e uc =? 0)%nat u
+             | None => Some uc
+             end) with
+      | None => None
+      | Some uc1 => Some (uc1, gc1)
+      end
+  end.
+
+Definition EPERM : Z := 1.
+
+(* ------------------------------------------------------------------ *)
 (* (b) uv_spawn                                                          *)
 (* ------------------------------------------------------------------ *)
 Inductive stdio :=
@@ -296,8 +331,21 @@ Record spec := mkSpec {
   s_pipe_fail : bool;          (* pipe2() of the error pipe fails with EMFILE *)
   s_fork_fail : bool;          (* fork() fails with EAGAIN *)
   s_exec_err : option Z;       (* errno of execvp, None = success *)
-  s_mask : sigmask             (* the calling thread's signal mask on entry *)
+  s_mask : sigmask;            (* the calling thread's signal mask on entry *)
+  s_uid : creds;               (* the caller's real/effective/saved uid *)
+  s_gid : creds;               (* ... gid *)
+  s_setuid : option nat;       (* UV_PROCESS_SETUID with options->uid *)
+  s_setgid : option nat        (* UV_PROCESS_SETGID with options->gid *)
 }.
+
+(* what stops the child after the shuffle: EPERM from setgid/setuid, else the
+   errno of execvp; both are reported by uv__write_errno(error_fd) with the
+   same table *)
+Definition eff_exec_err (s : spec) : option Z :=
+  match child_creds (s_uid s) (s_gid s) (s_setgid s) (s_setuid s) with
+  | None => Some EPERM
+  | Some _ => s_exec_err s
+  end.
 
 Definition pipes := list (option nat * option nat).
 
@@ -374,9 +422,29 @@ Record sres := mkRes {
   r_wrote : option (option nat * Z);(* failing child: file the error int went to (None = EBADF) *)
   r_reaped : option (option wans);  (* blocking waitpid of a child whose exec failed *)
   r_mask : sigmask;                 (* the calling thread's signal mask on return *)
-  r_child_mask : option sigmask     (* the mask the forked child starts with (it empties it
+  r_child_mask : option sigmask;    (* the mask the forked child starts with (it empties it
                                        just before exec, process.c:405-408) *)
+  r_creds : option (creds * creds); (* uid and gid triples of the child that reached exec *)
+  r_trip : bool                     (* an assert-enabled build aborts inside uv_spawn:
+                                       uv__close() of a descriptor <= 2 (core.c:651) *)
 }.
+
+(* the descriptors uv_spawn closes with the checking uv__close(): the write end
+   of the error pipe (process.c "uv__close(signal_pipe[1])") and the child's
+   end of every UV_CREATE_PIPE pair (uv__process_open_stream); everything else
+   goes through uv__close_nocheckstdio *)
+Definition error_wfd (t : tbl) (fresh : nat) : nat :=
+  snd (alloc (fst (alloc t 0 fresh true)) 0 (S fresh) true).
+
+Fixpoint streams_trip (cs : list stdio) (ps : pipes) : bool :=
+  match cs, ps with
+  | c :: cr, (a, b) :: pr =>
+      match c, a, b with
+      | SPipe, Some _, Some n => (n <=? 2)%nat || streams_trip cr pr
+      | _, _, _ => streams_trip cr pr
+      end
+  | _, _ => false
+  end.
 
 (* uv__spawn_and_init_child (860-963) on the table after init_stdio.
    Returns exec_errorno, the parent's table, the child, where the child wrote,
@@ -410,16 +478,22 @@ Definition uv_spawn (s : spec) (wo : list wans) : sres * list wans :=
   let '(t1, ps, fresh1, err) := init_stdio (s_stdio s) (s_tbl s) (s_fresh s) 0 (s_sp_fail s) in
   match err with
   | Some e =>
-      (mkRes e false (error_closes (s_stdio s) ps t1) None [] None None (s_mask s) None, wo)
+      (mkRes e false (error_closes (s_stdio s) ps t1) None [] None None (s_mask s) None None false, wo)
   | None =>
       let us := pad3 3 (map snd ps) in
       let '(eno, t2, c, wrote, reaped, wo1) :=
-        spawn_child t1 us fresh1 (s_pipe_fail s) (s_fork_fail s) (s_exec_err s) wo in
+        spawn_child t1 us fresh1 (s_pipe_fail s) (s_fork_fail s) (eff_exec_err s) wo in
       let '(t3, streams) := open_streams (s_stdio s) ps 0 t2 in
       (* the mask: untouched when pipe2 failed (uv__spawn_and_init_child returns at 923-924) *)
       let masks := if s_pipe_fail s then (None, s_mask s)
                    else fork_sigmask (s_mask s) (s_fork_fail s) in
-      (mkRes eno (eno =? 0) t3 c streams wrote reaped (snd masks) (fst masks), wo1)
+      let cr := match c with
+                | Some (CExec _) => child_creds (s_uid s) (s_gid s) (s_setgid s) (s_setuid s)
+                | _ => None
+                end in
+      let trip := (negb (s_pipe_fail s) && (error_wfd t1 fresh1 <=? 2)%nat)
+                  || streams_trip (s_stdio s) ps in
+      (mkRes eno (eno =? 0) t3 c streams wrote reaped (snd masks) (fst masks) cr trip, wo1)
   end.
 
 (* ------------------------------------------------------------------ *)
